@@ -511,6 +511,9 @@ type storCase struct {
 }
 
 func genFd(r *vlib.RNG) sfd {
+	if r.Chance(1, 2) {
+		return sfd{4, 1} // a hot name: create / write / close / create again / open / read chains need one
+	}
 	ty := []int{1, 2, 4, 8}[r.Pick(2, 2, 5, 1)]
 	num := int64(r.Range(1, 3))
 	switch r.Pick(60, 2, 2, 1, 1) {
@@ -536,69 +539,104 @@ func genStorCase(r *vlib.RNG) *storCase {
 	}
 	nh, nlock := 0, 0
 	var writers, readers []int
-	n := r.Range(8, 40)
-	for i := 0; i < n; i++ {
-		var o sOp
-		switch r.Pick(10, 5, 5, 14, 8, 7, 4, 4, 3, 14, 3, 10, 8, 1) {
-		case 0:
-			o = sOp{Kind: "create", F: genFd(r)}
+	emit := func(o sOp) {
+		switch o.Kind {
+		case "create":
 			writers = append(writers, nh)
-			nh++ // provisional: fixed up below when the call fails
+			nh++ // provisional numbering: each storage renumbers (runStorOn)
+		case "open":
+			readers = append(readers, nh)
+			nh++
+		case "lock":
+			nlock++
+		}
+		c.Ops = append(c.Ops, o)
+	}
+	data := func() string { return fmt.Sprintf("%x", r.Bytes(r.Range(0, 4), nil)) }
+	n := r.Range(8, 40)
+	for len(c.Ops) < n {
+		switch r.Pick(10, 5, 5, 14, 8, 7, 4, 4, 3, 14, 3, 10, 8, 1, 6) {
+		case 0:
+			emit(sOp{Kind: "create", F: genFd(r)})
 		case 1:
-			o = sOp{Kind: "remove", F: genFd(r)}
+			emit(sOp{Kind: "remove", F: genFd(r)})
 		case 2:
-			o = sOp{Kind: "rename", F: genFd(r), G: genFd(r)}
+			o := sOp{Kind: "rename", F: genFd(r), G: genFd(r)}
 			if r.Chance(1, 10) {
 				o.G = o.F
 			}
+			emit(o)
 		case 3:
-			o = sOp{Kind: "open", F: genFd(r)}
-			readers = append(readers, nh)
-			nh++
+			emit(sOp{Kind: "open", F: genFd(r)})
 		case 4:
-			o = sOp{Kind: "list", Mask: []int{15, 4, 1, 2, 8, 6, 0}[r.Pick(6, 3, 1, 1, 1, 1, 1)]}
+			emit(sOp{Kind: "list", Mask: []int{15, 4, 1, 2, 8, 6, 0}[r.Pick(6, 3, 1, 1, 1, 1, 1)]})
 		case 5:
-			o = sOp{Kind: "setmeta", F: genFd(r)}
+			emit(sOp{Kind: "setmeta", F: genFd(r)})
 		case 6:
-			o = sOp{Kind: "getmeta"}
+			emit(sOp{Kind: "getmeta"})
 		case 7:
-			o = sOp{Kind: "lock"}
-			nlock++
+			emit(sOp{Kind: "lock"})
 		case 8:
 			if nlock == 0 {
-				o = sOp{Kind: "lock"}
-				nlock++
+				emit(sOp{Kind: "lock"})
 			} else {
-				o = sOp{Kind: "unlock", K: r.Intn(nlock)}
+				emit(sOp{Kind: "unlock", K: r.Intn(nlock)})
 			}
 		case 9:
-			if len(writers) == 0 {
-				o = sOp{Kind: "list", Mask: 15}
-			} else {
-				o = sOp{Kind: "write", K: writers[r.Intn(len(writers))], D: fmt.Sprintf("%x", r.Bytes(r.Range(0, 4), nil))}
+			if len(writers) > 0 {
+				k := writers[len(writers)-1]
+				if r.Chance(1, 3) {
+					k = writers[r.Intn(len(writers))]
+				}
+				emit(sOp{Kind: "write", K: k, D: data()})
 			}
 		case 10:
-			if len(writers) == 0 {
-				o = sOp{Kind: "getmeta"}
-			} else {
-				o = sOp{Kind: "sync", K: writers[r.Intn(len(writers))]}
+			if len(writers) > 0 {
+				emit(sOp{Kind: "sync", K: writers[r.Intn(len(writers))]})
 			}
 		case 11:
-			if len(readers) == 0 {
-				o = sOp{Kind: "list", Mask: 4}
-			} else {
-				o = sOp{Kind: "readall", K: readers[r.Intn(len(readers))]}
+			if len(readers) > 0 {
+				k := readers[len(readers)-1]
+				if r.Chance(1, 3) {
+					k = readers[r.Intn(len(readers))]
+				}
+				emit(sOp{Kind: "readall", K: k})
 			}
 		case 12:
-			if nh == 0 {
-				o = sOp{Kind: "getmeta"}
-			} else {
-				o = sOp{Kind: "hclose", K: r.Intn(nh)}
+			if nh > 0 {
+				k := nh - 1 - r.Intn(2)
+				if k < 0 || r.Chance(1, 3) {
+					k = r.Intn(nh)
+				}
+				emit(sOp{Kind: "hclose", K: k})
 			}
+		case 13:
+			emit(sOp{Kind: "close"})
 		default:
-			o = sOp{Kind: "close"}
+			// a whole life of one name: write it, close, (write it again,) read it back; variations leave handles open
+			f := genFd(r)
+			for round, rounds := 0, r.Range(1, 2); round < rounds; round++ {
+				emit(sOp{Kind: "create", F: f})
+				w := nh - 1
+				for k := r.Intn(3); k > 0; k-- {
+					emit(sOp{Kind: "write", K: w, D: data()})
+				}
+				if r.Chance(5, 6) {
+					emit(sOp{Kind: "hclose", K: w})
+				}
+			}
+			if r.Chance(1, 4) {
+				g := genFd(r)
+				emit(sOp{Kind: "rename", F: f, G: g})
+				f = g
+			}
+			emit(sOp{Kind: "open", F: f})
+			rd := nh - 1
+			emit(sOp{Kind: "readall", K: rd})
+			if r.Chance(3, 4) {
+				emit(sOp{Kind: "hclose", K: rd})
+			}
 		}
-		c.Ops = append(c.Ops, o)
 	}
 	return c
 }
@@ -776,6 +814,7 @@ func runStorOn(impl int, c *storCase, base string, idx int, count func(string, i
 		}
 		if !got.equal(want) && viol == "" {
 			viol = fmt.Sprintf("%s, call %d %s: returned %s, expected %s", implNames[impl], i, coqSOp(o), got, want)
+			g.unsure = "after a violation" // the oracle's state no longer follows the storage
 		}
 	}
 	return obs, viol
